@@ -356,6 +356,8 @@ def enc_requests(qs):
         x = {"u": q["u"], "b": q["b"], "seed": q["seed"], "cls": list(q["cls"]), "title": list(q["title"]), "lines": [list(l) for l in q["lines"]], "edge": q.get("edge", 0), "shape": q.get("shape")}
         if q.get("env"):
             x["env"] = {"bbusy": list(q["env"]["bbusy"]), "boards": [[list(kv) for kv in b] for b in q["env"]["boards"]], "words": env_words(q["env"])}
+        if q.get("clock"):
+            x["clock"] = list(q["clock"]); x["clock_words"] = clock_words(q["clock"])
         rs.append(x)
     return rs
 
@@ -366,6 +368,8 @@ def replay(path):
     import json
     obj = json.load(open(path))
     print("replay of %s: %s" % (path, obj.get("what", "")))
+    if obj.get("dates"):
+        replay_dates(obj["dates"])
     reqs = obj.get("requests")
     if not reqs:
         print(json.dumps(obj, indent=1)[:4000])
@@ -375,6 +379,8 @@ def replay(path):
     for q, x in zip(qs, reqs):
         if x.get("env"):
             q["env"] = {"bbusy": tuple(x["env"]["bbusy"]), "boards": [tuple(tuple(kv) for kv in b) for b in x["env"]["boards"]]}
+        if x.get("clock"):
+            q["clock"] = tuple(x["clock"])
     impl = vf.build_impl()
     gl, pos = group_lines(qs)
     out = vf.run_impl(impl, "C09", ["0"] + gl, deadline_ms=120000)
@@ -667,11 +673,180 @@ def gen_env_cases(c):
     return groups
 
 
+# ------------------------------------------------------------------ the clock of a long-running process
+T_LO, T_HI = 1000000000 + 86400, 2**31 - 200000     # clock readings of the model's domain (10-digit times below 2^31), with room for a day
+
+
+def local_midnight(y, m, d):
+    """the first second of the calendar day y-m-d in Asia/Taipei (UTC+8, no DST in the range)"""
+    return calendar.timegm((y, m, d, 0, 0, 0)) - 8 * 3600
+
+
+def local_str(t):
+    g = time.gmtime(t + 8 * 3600)
+    return "%04d-%02d-%02d %02d:%02d:%02d +0800" % (g.tm_year, g.tm_mon, g.tm_mday, g.tm_hour, g.tm_min, g.tm_sec)
+
+
+def clock_words(ck):
+    mode, v = ck
+    if mode == 0:
+        return "the clock is the real one again"
+    if mode == 2:
+        return "the clock moves by %+d s (%+.3f days)" % (v, v / 86400.0)
+    return "the clock reads %d = %s%s" % (v, local_str(v), " (set in the first half of a second)" if mode == 3 else "")
+
+
+def gen_clock_cases(c):
+    """One server process lives through day boundaries: the clock types.NowTS reads is moved (driver op 4) between the
+    posts of a scenario — shortly before / after a local midnight (16:00 UTC), a UTC midnight (08:00 local), a month
+    end, new year, 28/29 February, exactly one day / week / year later at the same time of day, and stepped back (a
+    clock correction). Two posts are started a few hundred microseconds before the second that begins a new local day
+    (first stamp on the old day, second stamp on the new one; or both stamps already on the new day). Every clause of
+    the property is evaluated per post as everywhere else; the date recorded must be the calendar day (Asia/Taipei) of
+    the time in the entry's own name, whatever this process stamped before."""
+    rng = c.rng
+    thorough = c.tier == "thorough"
+    letters = b"abcdefghijklmnopqrstuvwxyzABCDEFGHIJKLMNOPQRSTUVWXYZ0123456789 -_:()"
+
+    def post(kind, clock=None, b=None, edge=0):
+        q = {"u": rng.randrange(3), "b": rng.randrange(2) if b is None else b, "cls": rng.choice([b"", b"test"]),
+             "title": bytes(rng.choice(letters) for _ in range(rng.randrange(1, 40))),
+             "lines": [bytes(rng.choice(letters) for _ in range(rng.randrange(0, 30))) for _ in range(rng.randrange(1, 4))], "kind": kind, "seed": rng.randrange(1, 2**31)}
+        if clock:
+            q["clock"] = clock
+        if edge:
+            q["edge"] = edge
+        return q
+
+    def rday():
+        """midnight (local) that begins a random day of the range"""
+        return ((rng.randrange(T_LO + 2 * 86400, T_HI - 400 * 86400) + 28800) // 86400) * 86400 - 28800
+
+    groups = []
+    b = rng.randrange(2)
+    M = rday()
+    # local midnight inside one UTC day: the last minute of a day, the first seconds of the next (same board, other board)
+    groups.append([post("clock-local-midnight", (1, M - rng.randrange(3, 60)), b), post("clock-local-midnight", (1, M + rng.randrange(0, 5)), b), post("clock-local-midnight", None, 1 - b)])
+    # UTC midnight inside one local day
+    U = rday() + 8 * 3600
+    groups.append([post("clock-utc-midnight", (1, U - rng.randrange(3, 60)), b), post("clock-utc-midnight", (1, U + rng.randrange(0, 5)), b)])
+    # a whole day of one process: before / after local midnight, before / after UTC midnight, before / after the next local midnight
+    M = rday()
+    groups.append([post("clock-day", (1, M - 30)), post("clock-day", (1, M + 1)), post("clock-day", (1, M + 8 * 3600 - 20)), post("clock-day", (1, M + 8 * 3600 + 2)),
+                   post("clock-day", (1, M + 86400 - 10)), post("clock-day", (1, M + 86400 + 3))])
+    # new year (the padded one-digit month follows a two-digit one), a month end, 28 February with and without a 29th
+    y = rng.randrange(2002, 2037)
+    N = local_midnight(y + 1, 1, 1)
+    groups.append([post("clock-new-year", (1, N - rng.randrange(3, 60)), b), post("clock-new-year", (1, N + rng.randrange(0, 5)), b)])
+    E = local_midnight(rng.randrange(2002, 2037), rng.choice([10, 2, 3, 5, 12]), 1)
+    groups.append([post("clock-month-end", (1, E - rng.randrange(3, 60))), post("clock-month-end", (1, E + rng.randrange(0, 5)))])
+    ly = rng.choice([2004, 2008, 2012, 2016, 2020, 2024, 2028, 2032, 2036])
+    F = local_midnight(ly, 2, 29)
+    groups.append([post("clock-leap-day", (1, F - 20)), post("clock-leap-day", (1, F + 1)), post("clock-leap-day", (1, F + 86400 - 5)), post("clock-leap-day", (1, F + 86400 + 5))])
+    F = local_midnight(ly + 1, 3, 1)
+    groups.append([post("clock-leap-day", (1, F - 20)), post("clock-leap-day", (1, F + 1))])
+    # the same time of day one day / one week / 365 / 366 days later (the clock is moved, not set)
+    T = rng.randrange(T_LO, T_HI - 800 * 86400)
+    groups.append([post("clock-days-later", (1, T)), post("clock-days-later", (2, 86400)), post("clock-days-later", (2, 6 * 86400)), post("clock-days-later", (2, 358 * 86400)),
+                   post("clock-days-later", (2, 86400))])
+    # the clock is stepped back over a local midnight and forward again
+    M = rday()
+    groups.append([post("clock-stepped-back", (1, M + 10), b), post("clock-stepped-back", (1, M - 20), b), post("clock-stepped-back", (1, M + 30), b)])
+    # a post that is itself in flight while the local day changes: started some hundred microseconds before the clock
+    # reaches M-1 (first stamp M-1: old day; second stamp M: new day) and before it reaches M (both stamps on the new day)
+    M = rday()
+    groups.append([post("clock-midnight-in-flight", (3, M - 2), b, edge=rng.choice([300, 700])), post("clock-midnight-in-flight", None, b)])
+    M = rday()
+    groups.append([post("clock-midnight-in-flight", (3, M - 1), b, edge=rng.choice([300, 700])), post("clock-midnight-in-flight", None, 1 - b)])
+    # both ends of the range of 10-digit times below 2^31
+    groups.append([post("clock-range-ends", (1, T_LO - 86400 + rng.randrange(100, 80000))), post("clock-range-ends", (1, T_HI + rng.randrange(0, 100000))), post("clock-range-ends", (0, 0))])
+    # random walks of the clock
+    steps = [1, 60, 3600, 8 * 3600, 16 * 3600, 86400 - 1, 86400, 86400 + 1, 7 * 86400, 30 * 86400, 365 * 86400, 366 * 86400]
+    for _ in range(300 if thorough else 5):
+        t = rng.randrange(T_LO + 400 * 86400, T_HI - 400 * 86400)
+        if rng.random() < 0.5:
+            t = ((t + 28800) // 86400) * 86400 - 28800 - rng.randrange(1, 30)        # shortly before a local midnight
+        g = [post("clock-walk", (1, t))]
+        for _ in range(rng.randrange(2, 5)):
+            d = rng.choice(steps) * rng.choice([1, 1, 1, -1]) if rng.random() < 0.7 else rng.randrange(-400 * 86400, 400 * 86400)
+            t = min(max(t + d, T_LO), T_HI)
+            g.append(post("clock-walk", (1, t)))
+        groups.append(g)
+    return groups
+
+
+def gen_dates(c):
+    """Times for which types.Time4.Cdatemd (the date fhdrStamp records in every new index entry) is asked inside ONE
+    process, in this order (driver op 5) — lists, each run in a driver process of its own:
+    every local midnight of the range forwards (last second of a day, first second of the next), the same backwards,
+    UTC midnights, the same time of day on consecutive / distant days, pairs inside one UTC day on two local days and
+    inside one local day on two UTC days, random times."""
+    rng = c.rng
+    thorough = c.tier == "thorough"
+    d_lo, d_hi = (T_LO + 28800) // 86400 + 1, (T_HI + 28800) // 86400 - 1
+    fw = []
+    for d in range(d_lo, d_hi):
+        m = d * 86400 - 28800
+        fw += [m - 1, m]
+    bw = list(reversed(fw))
+    mix = []
+    for _ in range(40000 if thorough else 3000):
+        t = rng.randrange(T_LO, T_HI)
+        k = rng.randrange(6)
+        if k == 0:        # same UTC day, two local days
+            u = (t // 86400) * 86400
+            mix += [u + rng.randrange(0, 57600), u + rng.randrange(57600, 86400)]
+        elif k == 1:      # same local day, two UTC days
+            m = ((t + 28800) // 86400) * 86400 - 28800
+            mix += [m + rng.randrange(0, 28800), m + rng.randrange(28800, 86400)]
+        elif k == 2:      # UTC midnight
+            u = (t // 86400) * 86400
+            mix += [u - 1, u, u + 1]
+        elif k == 3:      # same time of day, other days
+            mix += [t, min(t + 86400 * rng.choice([1, 2, 7, 30, 365, 366]), T_HI), t]
+        elif k == 4:      # around a local midnight, in any order
+            m = ((t + 28800) // 86400) * 86400 - 28800
+            x = [m - 2, m - 1, m, m + 1]
+            rng.shuffle(x)
+            mix += x
+        else:
+            mix.append(t)
+    return [("every local midnight of the range, forwards", fw), ("every local midnight of the range, backwards", bw), ("mixed order", mix)]
+
+
+def dates_of(impl, ts, chunk=4000):
+    """the 6-byte date fields the implementation gives for ts, asked in order inside one fresh driver process"""
+    lines = ["5|" + " ".join(str(t) for t in ts[i:i + chunk]) for i in range(0, len(ts), chunk)]
+    got = []
+    for ln in vf.run_impl(impl, "C09", lines, deadline_ms=60000):
+        t = ln.split()
+        if t[0] != "0":
+            return None
+        got += [bytes(int(x) for x in t[1 + 6 * i:7 + 6 * i]) for i in range((len(t) - 1) // 6)]
+    return got if len(got) == len(ts) else None
+
+
+def replay_dates(ts):
+    impl = vf.build_impl()
+    got = dates_of(impl, ts)
+    vf.ipc_cleanup()
+    bad = got is None
+    for i, t in enumerate(ts):
+        g = got[i] if got else None
+        ok_ = g == ref_datemd(t) + b"\0"
+        bad = bad or not ok_
+        print("time %d = %s -> date field %r%s" % (t, local_str(t), g, "" if ok_ else "   expected %r" % (ref_datemd(t) + b"\0")))
+    print("replay: %s" % ("property still violated on this input" if bad else "input now behaves"))
+    sys.exit(1 if bad else 0)
+
+
 def group_lines(g):
     """driver lines of one scenario (reset, then per request an optional shared-memory line and the post) and the
     positions of the posts among them"""
     lines, pos = ["2"], []
     for q in g:
+        if q.get("clock"):
+            lines.append("4|%d %d" % q["clock"])
         if q.get("env"):
             lines.append(env_line(q["env"]))
         pos.append(len(lines))
@@ -706,7 +881,8 @@ def describe(q):
     body = "[" + ", ".join(abbr(l, 40) for l in ls[:6]) + (", ... %d lines, %d bytes in all" % (len(ls), sum(len(l) for l in ls)) if len(ls) > 6 else "") + "]"
     return "user=%s board=%s class=%r title=%r(len %d) lines=%s%s%s" % (USERS[q["u"]], BOARDS[q["b"]], q["cls"], q["title"], len(q["title"]), body,
                                                                      " shape=%s" % q["shape"] if q.get("shape") else "",
-                                                                     " [just before: %s]" % env_words(q["env"]) if q.get("env") else "")
+                                                                     (" [just before: %s]" % env_words(q["env"]) if q.get("env") else "")
+                                                                     + (" [just before: %s]" % clock_words(q["clock"]) if q.get("clock") else ""))
 
 
 def main():
@@ -723,6 +899,7 @@ def main():
     sc0 = parse_scenario(vf.run_impl(impl, "C09", ["0"])[0])     # users / boards of the fixture: the size cases aim at exact file sizes
     groups = gen_cases(c)
     groups += gen_size_cases(c, sc0)
+    groups += gen_clock_cases(c)
     n_main = len(groups)
     groups += gen_env_cases(c)
 
@@ -816,6 +993,40 @@ def main():
         if not bad:
             good[(gi, qi)] = (name, entry)
             c.nontrivial((q["u"], q["b"], q["cls"], q["title"], tuple(q["lines"])))
+
+    # ------------------------------------------------------------ the recorded date inside one long-running process
+    # types.Time4.Cdatemd is what fhdrStamp copies into the Date field of every new index entry. Asked for many times in
+    # one process, in an order that crosses every local midnight of the range (forwards, backwards, mixed with UTC
+    # midnights and repeats), every answer must be the calendar day (Asia/Taipei) of its own argument.
+    date_lists = gen_dates(c)
+    date_results = []
+    for (what, ts) in date_lists:
+        got = dates_of(impl, ts)
+        date_results.append(got)
+        if got is None:
+            c.broken.append({"kind": "correspondence", "where": "driver op 5 (dates asked in one process: %s) failed" % what, "theorem": "correspondence dates", "log": ""})
+            continue
+        c.count(len(ts), "date of a time, asked in one process")
+        for j, t in enumerate(ts):
+            want = ref_datemd(t) + b"\0"
+            if got[j] == want:
+                continue
+            # smallest history that still gives the wrong date: the time alone, then one earlier call plus this one (each in a fresh process)
+            alone = dates_of(impl, [t])
+            if alone and alone[0] != want:
+                hist, key = [t], "date-recorded:date-of-time"
+            else:
+                hist, key = ts[:j + 1], "date-recorded:depends-on-earlier-stamps-of-the-process"
+                for i in list(range(j - 1, max(-1, j - 12), -1)) + [0]:
+                    two_ = dates_of(impl, [ts[i], t])
+                    if two_ and two_[1] != want:
+                        hist = [ts[i], t]
+                        break
+            c.violation(key, "types.Time4(%d).Cdatemd() — the date fhdrStamp records for an article stamped at %s — gives %r, expected %r, when the same process was asked before for %s" % (
+                            t, local_str(t), got[j], want, ", ".join("%d (%s)" % (x, local_str(x)) for x in hist[:-1][-3:]) or "nothing"),
+                        {"cases": ["5|" + " ".join(str(x) for x in hist[-4000:])], "dates": hist[-4000:], "expected": repr(want), "got": repr(got[j]), "list": what})
+            break
+    c.cov["distribution"]["local midnights crossed by the date sweep (each forwards and backwards)"] = len(date_lists[0][1]) // 2
 
     # ------------------------------------------------------------ correspondence with the extracted model
     def impl_canon(r, q):
@@ -917,6 +1128,18 @@ def main():
             em = [canon_model(x) for x in vf.run_model(model, e_cases)]
             vf.correspond(c, "post under any condition of the board cache's shared memory: state and memory after = post_seq_shm(state and memory before)", e_cases, e_impl, em)
             c.count(len(e_cases), "model post_shm / post_seq_shm")
+        # the date of a time: the model's cdatemd (op 4, stamp_dates) on the same lists
+        d_cases, d_impl = [], []
+        for (what, ts), got in zip(date_lists, date_results):
+            if got is None:
+                continue
+            for i in range(0, len(ts), 4000):
+                d_cases.append("4|" + " ".join(str(t) for t in ts[i:i + 4000]))
+                d_impl.append("0 " + " ".join(" ".join(str(x) for x in g_) for g_ in got[i:i + 4000]))
+        if d_cases:
+            dm = [" ".join(x.split()) for x in vf.run_model(model, d_cases)]
+            vf.correspond(c, "dates: Cdatemd asked in one process for a list of times = stamp_dates of the model", d_cases, d_impl, dm, describe=lambda cs: "")
+            c.count(len(d_cases), "model stamp_dates")
         # fetch: the model's decoder+lookup on the observed state returns the file
         f_cases, f_impl = [], []
         for (li, gi, qi) in index:
@@ -942,6 +1165,7 @@ def main():
                                  "every proper prefix of the announcement tag as a title x 3 classes x 3 authors",
                                  "body sizes through bbs.CreateArticle -> bbs.GetArticle: 0, 1, MAX_EDIT_LINE-1, MAX_EDIT_LINE, MAX_EDIT_LINE+1, 5000 lines; one line of 0, 79, 80, 81, 255, 256, "
                                  "WRAPMARGIN, WRAPMARGIN+1, 4095, 4096, 70000 bytes; stored body / article file of 64 KiB-1, 64 KiB, 64 KiB+1 bytes (thorough: 1 MiB, up to 65537 lines)",
+                                 "every local midnight of the range of times (2001-09 .. 2038-01): types.Time4.Cdatemd asked in one process for the last second of a day and the first of the next, forwards and backwards",
                                  "conditions of the shared memory around a post (second driver, op 3): Shm.BBusyState non-zero before anything was counted / after the board was listed / set and "
                                  "cleared inside a sequence; BusyStateB = now, seconds ago, 1970, 2^31-1; Total 0, behind, ahead of the index; LastPostTime 0, 1970, tomorrow, 2^31-1; all at once"]
     c.cov["distribution"]["posts"] = len(index)
@@ -951,6 +1175,11 @@ def main():
     c.cov["distribution"]["posts with a cached count out of sync before"] = sum(
         1 for k_ in results if results[k_]["pre"]["boards"][groups[k_[0]][k_[1]]["b"]]["total"] not in (0, len(results[k_]["pre"]["boards"][groups[k_[0]][k_[1]]["b"]]["dir"]) // 128))
     c.cov["distribution"]["scenarios dropped after a hang"] = len(dead)
+    c.cov["distribution"]["posts made under a moved clock"] = sum(1 for g_ in groups for q_ in g_ if q_["kind"].startswith("clock-"))
+    c.cov["distribution"]["posts in flight while the local day changed (clock readings of one post on two local days)"] = sum(
+        1 for k_ in results if (results[k_]["t0"] + 28800) // 86400 != (results[k_]["t1"] + 28800) // 86400)
+    c.cov["distribution"]["posts whose clock readings straddle the second before a local midnight (first stamp old day, second stamp new day possible)"] = sum(
+        1 for k_ in results if results[k_]["t0"] != results[k_]["t1"] and (results[k_]["t1"] + 1 + 28800) % 86400 == 0)
     c.cov["distribution"]["clock straddled a second"] = sum(1 for k_ in results if results[k_]["t0"] != results[k_]["t1"])
     vf.ipc_cleanup()
     c.finish(rule="real posts through bbs.CreateArticle in a scratch BBSHOME; title lengths / tag prefixes / body-size boundaries / conditions of the board cache's shared memory enumerated, "
@@ -959,6 +1188,10 @@ def main():
              assumptions=["clock readings, math/rand draws and the file modification time are observed inputs of the model (reported by the driver, which seeds math/rand per case)",
                           "Go's fmt / time formatting, os file operations and rename(2) are re-specified in Model/C09.v and exercised by the correspondence, not verified",
                           "the .post log (ptt.PostLog) and the cross-post copies in ALLPOST are outside this property's statement and are not compared",
+                          "the clock of a long-running process: types.NowTS (the only clock the post path reads) is moved by the driver through the verif hook types.VerifSetClockOffset between posts, "
+                          "and types.Time4.Cdatemd is asked for lists of times inside one process — validation on chosen histories (every local midnight of 2001-2038 for the date function; day / month / year "
+                          "boundaries, later days, a clock stepped back and random walks for real posts); that the recorded date depends on the entry's own stamp time only is a theorem about the model "
+                          "(C09_sequence_dates, C09_date_is_local_day), for the Go code it is what these histories test; file modification times still come from the kernel clock; histories are sequential",
                           "shared-memory conditions are set by the driver between requests (Shm.BBusyState, BusyStateB, Total, LastPostTime of the two scenario boards); another process writing the "
                           "board cache while a post is in flight is not exercised; a post that does not return within 20 s is re-run alone with a 120 s deadline before it is reported"])
 
